@@ -120,7 +120,8 @@ Inductive lerr :=
 | IONotFound          (* LoadError::IO(kind NotFound): missing file, or a glob that hits nothing *)
 | RootLoadingPath     (* the including path has no parent *)
 | IncludeCycle        (* the file is already being loaded *)
-| Unsupported.        (* pattern outside the model (a character class or a recursive wildcard) *)
+| InvalidIncludeGlob  (* LoadError::InvalidIncludeGlob(PatternError): a `[` that is never closed *)
+| Unsupported.        (* pattern outside the model (a recursive wildcard) *)
 
 Inductive status := Done | Failed (e : lerr) | OutOfFuel.
 
@@ -143,8 +144,9 @@ Definition include_targets (fs : fsys) (cp : path) (written : str) : lerr + list
   | None => inl RootLoadingPath
   | Some dir =>
       match parse_pattern (path_string (canonicalize (join dir written))) with
-      | None => inl Unsupported
-      | Some ts =>
+      | Recursive => inl Unsupported
+      | PatternError => inl InvalidIncludeGlob      (* self.filesystem.glob(&target)? *)
+      | Tokens ts =>
           match sort_paths (glob_keys fs ts) with
           | [] => inl IONotFound
           | ps => inr ps
